@@ -12,7 +12,7 @@ import re
 import z3
 from .sym import *
 from .engine import *
-from .models import model, D, as_str, opaque_msg, ForkStore, usize
+from .models import model, D, as_str, opaque_msg, ForkStore, usize, LazyR
 
 
 def env_get(st, name):
@@ -54,3 +54,360 @@ def m_env_remove_var(ex, st, c):
     env = dict(st.world.get('env') or {}); env[name] = None; st.world['env'] = env
     st.log(('env.write', name.decode()))
     return UNIT
+
+
+# ------------------------------------------------------------------ finite symbolic filesystem
+K_ABSENT, K_FILE, K_DIR = 0, 1, 2
+ROOT = b'/r'
+
+
+class FsEntry:
+    __slots__ = ('path', 'kind', 'content', 'mtime', 'idx')
+
+    def __init__(s, path, kind, content, mtime, idx):
+        s.path = path; s.kind = kind; s.content = content; s.mtime = mtime; s.idx = idx
+
+
+def skey(s):
+    """structural identity of a SymStr (z3 terms are hash-consed, so equal ids = same term while both are alive)"""
+    return tuple((a.ln if isinstance(a.ln, int) else ('t', a.ln.get_id()),
+                  tuple(b if isinstance(b, int) else ('t', b.get_id()) for b in a.bs)) for a in s.flat_segs())
+
+
+def fs_lookup(ex, st, path, op):
+    """entry for `path` (SymStr).  Logs the access.  Entries are created lazily; two entries whose paths are equal as
+    strings are constrained to be the same object (kind, content, mtime)."""
+    fs = st.world.get('fs')
+    if fs is None: raise Unsupported('filesystem access (%s) but the harness seeded no fs model' % op)
+    st.world['fslog'] = st.world.get('fslog', ()) + ((op, path),)
+    cfg = fs['cfg']; entries = fs['entries']
+    pc = path.concrete()
+    key = skey(path)
+    for e in entries:
+        if e.path is path: return e
+        if pc is not None and e.path.concrete() == pc: return e
+        if skey(e.path) == key: return e
+    i = len(entries)
+    tag = '%s%d' % (fs.get('tag', 'fs'), i)
+    kind = z3.BitVec(ex.fresh(tag + '_kind'), 2)
+    cons = [z3.ULE(kind, 2)]
+    content = SymStr.fresh(ex.fresh(tag + '_data'), cfg['content_cap'], cons)
+    mtime = z3.BitVec(ex.fresh(tag + '_mtime'), 128)
+    cons.append(z3.ULT(mtime, 1000000))
+    if cfg.get('fixed'):
+        # concrete tree given by the harness: dict path bytes -> ('file', bytes) | ('dir',)
+        raise Unsupported('fixed tree lookups are resolved before reaching here')
+    ent = FsEntry(path, kind, content, mtime, i)
+    for e in entries:
+        same = path.eq(e.path)
+        if same is False: continue
+        cons.append(z3.Implies(zb(same), z3.And(kind == e.kind, zb(content.eq(e.content)), mtime == e.mtime)))
+    hook = cfg.get('on_new')
+    if hook is not None: cons.extend(hook(ent))
+    st.pc.extend(cons)
+    st.model = None
+    st.world['fs'] = {'cfg': cfg, 'entries': entries + (ent,), 'tag': fs.get('tag', 'fs')}
+    return ent
+
+
+def fs_concrete_lookup(st, path):
+    tree = st.world['fs']['cfg']['fixed']
+    p = path.concrete()
+    if p is None: raise Unsupported('symbolic path against a concrete tree')
+    return tree.get(p)
+
+
+def new_fs(content_cap=4, tag='fs', on_new=None, fixed=None):
+    return {'cfg': {'content_cap': content_cap, 'on_new': on_new, 'fixed': fixed}, 'entries': (), 'tag': tag}
+
+
+def io_error(): return Opaque('std::io::Error')
+
+
+@model(r'^current_dir$', r'^std::env::current_dir$', r'^env::current_dir$')
+def m_current_dir(ex, st, c):
+    return Ok(SymStr.const(st.world.get('cwd', ROOT)))
+
+
+@model(r'^Path::to_str$', r'^std::path::Path::to_str$', r'^OsStr::to_str$')
+def m_path_to_str(ex, st, c): return Some(D(ex, st, c.args[0]))
+
+
+def _fixed_entry(ex, st, path, op):
+    """concrete-tree mode used by differential validation"""
+    st.world['fslog'] = st.world.get('fslog', ()) + ((op, path),)
+    p = path.concrete()
+    if p is None: raise Unsupported('symbolic path against a concrete tree')
+    import posixpath
+    tree = st.world['fs']['cfg']['fixed']
+    norm = posixpath.normpath(p.decode('latin1')).encode('latin1')
+    if p.endswith(b'/') and norm in tree and tree[norm][0] == 'file': return None    # "file/" -> ENOTDIR
+    # every intermediate component must be a directory (a/../b with a absent -> ENOENT)
+    parts = p.decode('latin1').split('/')
+    cur = ''
+    for seg in parts[1:-1]:
+        if seg in ('', '.'): continue
+        if seg == '..':
+            cur = posixpath.dirname(cur) or ''
+            continue
+        cur = cur + '/' + seg
+        t = tree.get(cur.encode('latin1'))
+        if t is None or t[0] != 'dir': return None
+    t = tree.get(norm)
+    if t is None: return None
+    if t[0] == 'dir': return FsEntry(path, K_DIR, SymStr(()), 1, -1)
+    return FsEntry(path, K_FILE, SymStr.const(t[1]), t[2] if len(t) > 2 else 1, -1)
+
+
+def lookup(ex, st, path, op):
+    fs = st.world.get('fs')
+    if fs is not None and fs['cfg'].get('fixed') is not None:
+        e = _fixed_entry(ex, st, path, op)
+        return e if e is not None else FsEntry(path, K_ABSENT, SymStr(()), 0, -1)
+    return fs_lookup(ex, st, path, op)
+
+
+def kind_is(e, k):
+    if isinstance(e.kind, int): return e.kind == k
+    return e.kind == k
+
+
+@model(r'^std::fs::metadata$', r'^metadata$', r'^fs::metadata$', r'^std::fs::symlink_metadata$', r'^fs::symlink_metadata$', r'^symlink_metadata$')
+def m_fs_metadata(ex, st, c):
+    e = lookup(ex, st, as_str(ex, st, c.args[0]), 'metadata')
+    absent = kind_is(e, K_ABSENT)
+    return Fork([(absent, Err(io_error())), (b_not(absent), Ok(Opaque('Metadata', e)))])
+
+
+@model(r'^File::open$', r'^std::fs::File::open$')
+def m_file_open(ex, st, c):
+    e = lookup(ex, st, as_str(ex, st, c.args[0]), 'open')
+    absent = kind_is(e, K_ABSENT)
+    return Fork([(absent, Err(io_error())), (b_not(absent), Ok(Opaque('File', (e, 0))))])
+
+
+@model(r'^File::metadata$', r'^std::fs::File::metadata$')
+def m_file_metadata(ex, st, c):
+    f = D(ex, st, c.args[0]); return Ok(Opaque('Metadata', f.data[0]))
+
+
+@model(r'^Metadata::is_dir$', r'^std::fs::Metadata::is_dir$')
+def m_md_is_dir(ex, st, c): return kind_is(D(ex, st, c.args[0]).data, K_DIR)
+
+
+@model(r'^Metadata::is_file$', r'^std::fs::Metadata::is_file$')
+def m_md_is_file(ex, st, c): return kind_is(D(ex, st, c.args[0]).data, K_FILE)
+
+
+@model(r'^Metadata::len$', r'^std::fs::Metadata::len$')
+def m_md_len(ex, st, c):
+    e = D(ex, st, c.args[0]).data
+    # directories report an arbitrary size; the code only reads len() of regular files
+    return Int('u64', e.content.length())
+
+
+@model(r'^Metadata::file_type$')
+def m_md_file_type(ex, st, c): return Opaque('FileType', D(ex, st, c.args[0]).data)
+
+
+@model(r'^FileType::is_symlink$', r'^std::fs::FileType::is_symlink$')
+def m_ft_is_symlink(ex, st, c): return False     # symlinks are absent from the model (stated; the property exempts owner-placed links)
+
+
+@model(r'^Path::is_file$', r'^std::path::Path::is_file$')
+def m_path_is_file(ex, st, c):
+    return kind_is(lookup(ex, st, as_str(ex, st, c.args[0]), 'metadata'), K_FILE)
+
+
+@model(r'^Path::is_dir$', r'^Path::exists$')
+def m_path_is_dir(ex, st, c):
+    e = lookup(ex, st, as_str(ex, st, c.args[0]), 'metadata')
+    return kind_is(e, K_DIR) if c.callee.endswith('is_dir') else b_not(kind_is(e, K_ABSENT))
+
+
+@model(r'^Path::is_symlink$')
+def m_path_is_symlink(ex, st, c):
+    lookup(ex, st, as_str(ex, st, c.args[0]), 'metadata'); return False
+
+
+@model(r'^Metadata::modified$')
+def m_md_modified(ex, st, c): return Ok(Opaque('SystemTime', D(ex, st, c.args[0]).data.mtime))
+
+
+@model(r'^SystemTime::now$', r'^std::time::SystemTime::now$')
+def m_now(ex, st, c):
+    t = z3.BitVec(ex.fresh('now'), 128)
+    st.pc.append(z3.ULT(t, 1000000))
+    return Opaque('SystemTime', t)
+
+
+@model(r'^SystemTime::duration_since$')
+def m_duration_since(ex, st, c): return Ok(Opaque('Duration', D(ex, st, c.args[0]).data))
+
+
+@model(r'^Duration::as_nanos$')
+def m_as_nanos(ex, st, c): return Int('u128', D(ex, st, c.args[0]).data)
+
+
+@model(r'^BufReader::<File>::new$', r'^BufReader::new$', r'^std::io::BufReader::<.*>::new$')
+def m_bufreader_new(ex, st, c): return D(ex, st, c.args[0])
+
+
+@model(r'^<BufReader<File> as Seek>::seek$', r'^<File as Seek>::seek$', r'^<std::io::BufReader<File> as std::io::Seek>::seek$', r'^<File as std::io::Seek>::seek$')
+def m_seek(ex, st, c):
+    f = D(ex, st, c.args[0]); pos = D(ex, st, c.args[1])
+    e, _ = f.data
+    if not (isinstance(pos, Enum) and pos.variant == 'Start'): raise Unsupported('seek %r' % (pos,))
+    n = pos.fields[0]
+    ex.store(st, c.args[0], Opaque('File', (e, n.v)))
+    return Ok(n)
+
+
+@model(r'^<.* as (std::io::)?Read>::take$', r'^std::io::Read::take$')
+def m_take(ex, st, c): return Opaque('Take', (D(ex, st, c.args[0]), D(ex, st, c.args[1])))
+
+
+def read_range(e, pos, limit):
+    """bytes [pos, min(pos+limit, len)) of entry content"""
+    ln = e.content.length()
+    start = ite_bv(bv_ult(pos, ln, LW), pos, ln, LW)
+    avail = bv_sub(ln, start, LW)
+    if limit is None: n = avail
+    else: n = ite_bv(bv_ult(limit, avail, LW), limit, avail, LW)
+    return e.content.substr(start, n), n
+
+
+@model(r'^<std::io::Take<.*> as (std::io::)?Read>::read_to_end$', r'^<File as (std::io::)?Read>::read_to_end$', r'^<std::io::BufReader<File> as (std::io::)?Read>::read_to_end$', r'^<BufReader<File> as Read>::read_to_end$', r'^<Take<.*> as Read>::read_to_end$')
+def m_file_read_to_end(ex, st, c):
+    t = D(ex, st, c.args[0]); buf = D(ex, st, c.args[1])
+    limit = None
+    if t.tag == 'Take':
+        f, lim = t.data; limit = lim.v
+    else:
+        f = t
+    e, pos = f.data
+    st.world['fslog'] = st.world.get('fslog', ()) + (('read', e.path),)
+    isdir = kind_is(e, K_DIR)
+    data, n = read_range(e, pos, limit)
+    return ForkStore([(isdir, Err(io_error()), None), (b_not(isdir), Ok(usize(n)), (c.args[1], buf.concat(data)))])
+
+
+@model(r'^std::fs::read_to_string$', r'^read_to_string$', r'^fs::read_to_string$')
+def m_read_to_string(ex, st, c):
+    e = lookup(ex, st, as_str(ex, st, c.args[0]), 'read')
+    ok = kind_is(e, K_FILE)
+    return Fork([(ok, Ok(e.content)), (b_not(ok), Err(io_error()))])
+
+
+@model(r'^std::fs::read_link$', r'^fs::read_link$', r'^read_link$')
+def m_read_link(ex, st, c):
+    lookup(ex, st, as_str(ex, st, c.args[0]), 'metadata'); return Err(io_error())
+
+
+MUTATORS = r'^(std::)?(fs::)?(File::create|File::create_new|OpenOptions::.*|remove_file|remove_dir|remove_dir_all|rename|create_dir|create_dir_all|copy|set_permissions|write|hard_link|std::os::unix::fs::symlink|File::set_len|File::set_permissions)$'
+
+
+@model(r'^std::fs::(remove_file|remove_dir|remove_dir_all|rename|create_dir|create_dir_all|copy|set_permissions|write|hard_link)$', r'^File::create$', r'^File::create_new$',
+       r'^OpenOptions::new$', r'^std::fs::OpenOptions::new$', r'^std::os::unix::fs::symlink$', r'^File::set_len$', r'^<File as (std::io::)?Write>::.*$',
+       r'^fs::(remove_file|remove_dir|remove_dir_all|rename|create_dir|create_dir_all|copy|write)$', r'^(remove_file|remove_dir|remove_dir_all|rename|create_dir|create_dir_all)$')
+def m_fs_mutator(ex, st, c):
+    return StopR('fs-mutation', '%s reached at %s' % (c.callee, st.where()))
+
+
+# ------------------------------------------------------------------ std::path (unix)
+def path_extension(s):
+    """Path::new(s).extension() for unix paths, as (is_some: bool/z3, ext: SymStr).  Follows std: file_name() is the
+    last Normal component (trailing '/' and '/.' are skipped, '..' gives None); extension = text after the final '.'
+    unless the name has no '.' or only a leading one."""
+    c = s.concrete()
+    if c is not None:
+        import posixpath
+        t = c.decode('latin1')
+        # components
+        comps = [x for x in t.split('/')]
+        k = len(comps) - 1
+        # skip empty (repeated or trailing separators) and '.' components (a leading '.' is kept by std as CurDir)
+        while k >= 0 and (comps[k] == '' or (comps[k] == '.' and k > 0)): k -= 1
+        if k < 0: return False, SymStr(())
+        name = comps[k]
+        if name in ('..', '.') or name == '': return False, SymStr(())
+        d = name.rfind('.')
+        if d <= 0: return False, SymStr(())
+        return True, SymStr.const(name[d + 1:].encode('latin1'))
+    f = s.flat(); n = f.cap
+    # e: effective end after stripping trailing '/' and '/.' components (scan from the right)
+    stripping = True; e = 0
+    e_set = False
+    for i in range(n - 1, -1, -1):
+        inr = bv_ult(i, f.ln, LW)
+        b = f.bs[i]
+        prev_is_sep = True if i == 0 else bv_eq(f.bs[i - 1], 47, 8)
+        is_sep = bv_eq(b, 47, 8)
+        is_curdir = b_and(bv_eq(b, 46, 8), prev_is_sep, i > 0,
+                          # the '.' must also be followed by '/' or end: i.e. we are still stripping, so everything to the right was skipped
+                          True)
+        skip = b_or(is_sep, is_curdir)
+        stop_here = b_and(inr, stripping, b_not(skip))
+        e = ite_bv(stop_here, i + 1, e, LW)
+        stripping = b_and(stripping, b_or(b_not(inr), skip))
+    # if still stripping at the end -> no file name
+    has_name = b_not(stripping)
+    # start of the last component: 1 + last index of '/' below e
+    start = 0
+    for i in range(n):
+        start = ite_bv(b_and(bv_ult(i, e, LW), bv_eq(f.bs[i], 47, 8)), i + 1, start, LW)
+    # last '.' in [start, e)
+    d = 0; has_dot = False
+    for i in range(n):
+        hit = b_and(bv_ult(i, e, LW), bv_ule(start, i, LW), bv_eq(f.bs[i], 46, 8))
+        d = ite_bv(hit, i, d, LW); has_dot = b_or(has_dot, hit)
+    name_len = bv_sub(e, start, LW)
+    is_dotdot = b_and(bv_eq(name_len, 2, LW), bv_eq(f.byte_at(start), 46, 8), bv_eq(f.byte_at(bv_add(start, 1, LW)), 46, 8))
+    is_dot = b_and(bv_eq(name_len, 1, LW), bv_eq(f.byte_at(start), 46, 8))
+    some = b_and(has_name, has_dot, b_not(bv_eq(d, start, LW)), b_not(is_dotdot), b_not(is_dot))
+    ext = s.substr(bv_add(d, 1, LW), bv_sub(bv_sub(e, d, LW), 1, LW))
+    return some, ext
+
+
+@model(r'^Path::extension$', r'^std::path::Path::extension$')
+def m_path_extension(ex, st, c):
+    some, ext = path_extension(D(ex, st, c.args[0]))
+    some = simp_bool(some)
+    if some is False: return NONE
+    return Fork([(some, Some(ext)), (b_not(some), NONE)])
+
+
+# ------------------------------------------------------------------ lemma-backed stubs for dependency helpers
+def filter_string_spec(s):
+    """spec of file_ext::filter_string::FilterString::is_valid_input_string (file-ext 12.1.0) on ASCII input:
+    returns the condition under which the function returns Ok(()).  Proved equivalent to the function's MIR for all
+    strings up to a small bound by mirse.lemmas.lemma_filter_string before any check relies on it."""
+    f = s.flat(); n = f.cap
+    def ctl(b): return b_or(bv_ult(b, 0x20, 8), bv_eq(b, 0x7f, 8))
+    inr = [bv_ult(i, f.ln, LW) for i in range(n)]
+    solid = [b_and(inr[i], b_not(ctl(f.bs[i])), b_not(bv_eq(f.bs[i], 0x20, 8))) for i in range(n)]
+    bad = False
+    pre = False
+    pres = []
+    for i in range(n):
+        pres.append(pre); pre = b_or(pre, solid[i])
+    suf = False; sufs = [False] * n
+    for i in range(n - 1, -1, -1):
+        sufs[i] = suf; suf = b_or(suf, solid[i])
+    for i in range(n):
+        sp = b_and(inr[i], bv_eq(f.bs[i], 0x20, 8), pres[i], sufs[i])
+        forb = b_and(inr[i], byte_in(f.bs[i], (0x27, 0x22, 0x26, 0x7c, 0x3b)))
+        bad = b_or(bad, sp, forb)
+    return b_not(bad)
+
+
+def m_filter_string_stub(ex, st, c):
+    s = as_str(ex, st, c.args[0])
+    ok = simp_bool(filter_string_spec(s))
+    if ok is True: return Ok(UNIT)
+    return Fork([(ok, Ok(UNIT)), (b_not(ok), LazyR(lambda: Err(opaque_msg(ex, st, 'FilterString'))))])
+
+
+STUBS = {
+    'filter_string': (re.compile(r'^(filter_string::)?FilterString::is_valid_input_string$'), m_filter_string_stub),
+}
